@@ -2,7 +2,7 @@
 C14 - probed system description and derived machine model match the machine.
 Property theorems; long proofs live in RigModel/Lemmas/C14.lean.
 -/
-import RigModel.Lemmas.C14
+import RigModel.Lemmas.C14d
 set_option linter.unusedSimpArgs false
 set_option linter.unusedVariables false
 
@@ -63,5 +63,114 @@ theorem p2p_dims_read (rd : Rd) (w h : Nat) (hw : w ≤ 255) (hh : h ≤ 255)
     simp only [le16, leVal]; omega
   simp only [readInt, hd, e]
   rfl
+
+
+/-- **System description (exact).** With a P2P table `table` and chips answering `info` with the
+reply of their state (`answering xy = none`: no answer or an error reply), discovery returns
+exactly - in table order - the chips whose entry is not `none` and that answer, each with the view
+of its own state; width and height are one more than the largest listed coordinates. -/
+theorem sysinfo_exact (answering : Nat × Nat → Option ChipState)
+    (hwf : ∀ xy st, answering xy = some st → st.WF) (table : List ((Nat × Nat) × Nat))
+    (hlive : liveEntries table ≠ []) :
+    systemInfo table (fun xy => (answering xy).map infoReply) =
+      .ok { width := maxList ((liveEntries table).map (·.1.1)) + 1,
+            height := maxList ((liveEntries table).map (·.1.2)) + 1,
+            chips := describedChips answering table } :=
+  systemInfo_spec answering hwf table hlive
+
+/-- the description contains `(xy, ci)` iff `xy` is listed with an entry other than `none`, the chip
+answers, and `ci` is the view of its state -/
+theorem sysinfo_mem (answering : Nat × Nat → Option ChipState) (table : List ((Nat × Nat) × Nat))
+    (xy : Nat × Nat) (ci : ChipInfo) :
+    (xy, ci) ∈ describedChips answering table ↔
+      ∃ r st, (xy, r) ∈ table ∧ r ≠ P2P_NONE ∧ answering xy = some st ∧ ci = chipView st :=
+  mem_describedChips answering table xy ci
+
+/-- every listed chip lies inside the reported extent and both bounds are attained -/
+theorem sysinfo_extent (table : List ((Nat × Nat) × Nat)) (hlive : liveEntries table ≠ []) :
+    (∀ xy r, (xy, r) ∈ table → r ≠ P2P_NONE →
+      xy.1 < maxList ((liveEntries table).map (·.1.1)) + 1 ∧ xy.2 < maxList ((liveEntries table).map (·.1.2)) + 1) ∧
+    (∃ e ∈ liveEntries table, e.1.1 + 1 = maxList ((liveEntries table).map (·.1.1)) + 1) ∧
+    (∃ e ∈ liveEntries table, e.1.2 + 1 = maxList ((liveEntries table).map (·.1.2)) + 1) :=
+  extent_spec table hlive
+
+/-- no listed chip: the code raises (max of an empty sequence) - the documented domain limit -/
+theorem sysinfo_empty (table : List ((Nat × Nat) × Nat)) (probe : Nat × Nat → Option InfoReply)
+    (h : liveEntries table = []) : systemInfo table probe = .error "ValueError" := by
+  unfold liveEntries at h
+  simp [systemInfo, h]
+
+/-- **Dead chips** are exactly the coordinates inside the extent that have no record. -/
+theorem dead_chips_complement (si : SysInfo) (x y : Nat) :
+    (x, y) ∈ si.deadChips ↔ x < si.width ∧ y < si.height ∧ ¬ ∃ ci, ((x, y), ci) ∈ si.chips :=
+  mem_deadChips si x y
+
+/-- **Dead links** are exactly the links 0..5 of described chips that are not reported working. -/
+theorem dead_links_complement (si : SysInfo) (x y l : Nat) :
+    (x, y, l) ∈ si.deadLinks ↔ ∃ ci, ((x, y), ci) ∈ si.chips ∧ l < 6 ∧ l ∉ ci.links :=
+  mem_deadLinks si x y l
+
+/-- **Machine model (exact).** For a description with distinct keys inside its extent, the machine
+built from it has (1) exactly the described chips, (2) on them exactly the working links, and
+(3) for every described chip exactly the probed core count and largest free SDRAM / SRAM block
+(defaults are the maxima, every chip that differs is an exception). -/
+theorem build_machine_exact (si : SysInfo) (hwf : si.WF) :
+    (buildMachine si).width = si.width ∧ (buildMachine si).height = si.height ∧
+    (∀ x y, (buildMachine si).chipOk (x, y) = true ↔ ∃ ci, ((x, y), ci) ∈ si.chips) ∧
+    (∀ x y l, l < 6 → ((buildMachine si).linkOk x y l = true ↔ ∃ ci, ((x, y), ci) ∈ si.chips ∧ l ∈ ci.links)) ∧
+    (∀ xy ci, (xy, ci) ∈ si.chips → (buildMachine si).resources xy = (ci.numCores, ci.sdram, ci.sram)) :=
+  ⟨rfl, rfl, buildMachine_chip si hwf, buildMachine_link si hwf, buildMachine_resources si hwf⟩
+
+/-- the defaults are the maxima over the described chips (as the code does) -/
+theorem build_machine_defaults (si : SysInfo) :
+    (buildMachine si).cores = maxList (si.chips.map (·.2.numCores)) ∧
+    (buildMachine si).sdram = maxList (si.chips.map (·.2.sdram)) ∧
+    (buildMachine si).sram = maxList (si.chips.map (·.2.sram)) := ⟨rfl, rfl, rfl⟩
+
+/-- **Reservations partition.** For a description with distinct keys and at most 18 core slots per
+chip: on every described chip, every core that is not idle lies in exactly one of the generated
+reservations that apply to the chip (global ones and its own), and every other core number in
+none - so reservations applying to a chip never overlap and their union is exactly the busy cores. -/
+theorem reservations_partition (si : SysInfo) (hnd : (si.chips.map (·.1)).Nodup)
+    (h18 : ∀ xy ci, (xy, ci) ∈ si.chips → ci.coreStates.length ≤ 18)
+    (xy : Nat × Nat) (ci : ChipInfo) (h : (xy, ci) ∈ si.chips) (p : Nat) :
+    coverCount (coreConstraints si) xy p = if busy ci p = true then 1 else 0 :=
+  reservations_partition_lem si hnd h18 xy ci h p
+
+/-- a global reservation covers only cores that are busy on every chip -/
+theorem global_reservation_shared (si : SysInfo) (hnd : (si.chips.map (·.1)).Nodup)
+    (h18 : ∀ xy ci, (xy, ci) ∈ si.chips → ci.coreStates.length ≤ 18)
+    (r : Reservation) (hr : r ∈ coreConstraints si) (hg : r.chip = none) (p : Nat)
+    (hp : r.start ≤ p ∧ p < r.stop) (xy : Nat × Nat) (ci : ChipInfo) (h : (xy, ci) ∈ si.chips) :
+    busy ci p = true := by
+  have hc := reservations_partition si hnd h18 xy ci h p
+  have hm : r ∈ (coreConstraints si).filter fun r => r.appliesTo xy && r.start ≤ p && p < r.stop := by
+    rw [List.mem_filter]
+    refine ⟨hr, ?_⟩
+    simp [Reservation.appliesTo, hg, hp.1, hp.2]
+  have hpos := List.length_pos_of_mem hm
+  unfold coverCount at hc
+  cases hb : busy ci p
+  · rw [hb] at hc; simp only [Bool.false_eq_true, if_false] at hc; omega
+  · rfl
+
+/-- non-vacuity of the hypotheses of the last four theorems: a two-chip description -/
+def exSys : SysInfo :=
+  { width := 2, height := 1,
+    chips := [((0, 0), { numCores := 18, coreStates := 7 :: 7 :: List.replicate 16 15, links := [0, 2], sdram := 10,
+                         sram := 5, rtr := 1023, ethUp := true, ip := [10, 0, 0, 1], ethChip := (0, 0) }),
+              ((1, 0), { numCores := 17, coreStates := 7 :: 15 :: 5 :: List.replicate 14 15, links := [3], sdram := 9,
+                         sram := 5, rtr := 100, ethUp := false, ip := [0, 0, 0, 0], ethChip := (0, 0) })] }
+
+example : exSys.WF ∧ (∀ xy ci, (xy, ci) ∈ exSys.chips → ci.coreStates.length ≤ 18) ∧
+    coreConstraints exSys = [⟨0, 1, none⟩, ⟨1, 2, some (0, 0)⟩, ⟨2, 3, some (1, 0)⟩] ∧
+    (buildMachine exSys).exceptions = [((1, 0), (17, 9, 5))] := by
+  refine ⟨⟨by decide, ?_⟩, ?_, by decide, by decide⟩
+  · intro xy ci h
+    simp only [exSys, List.mem_cons, Prod.mk.injEq, List.mem_nil_iff, or_false] at h
+    rcases h with ⟨rfl, _⟩ | ⟨rfl, _⟩ <;> decide
+  · intro xy ci h
+    simp only [exSys, List.mem_cons, Prod.mk.injEq, List.mem_nil_iff, or_false] at h
+    rcases h with ⟨_, rfl⟩ | ⟨_, rfl⟩ <;> decide
 
 end Rig.C14
